@@ -59,7 +59,7 @@ def repo_include_files():
 
 # ------------------------------------------------------------------------------------------
 # translators
-TRANSLATORS = ["tables.py", "locks.py", "access.py"]
+TRANSLATORS = ["tables.py", "shapes.py", "locks.py", "access.py"]
 
 
 def regenerate():
